@@ -378,8 +378,9 @@ impl Accept {
         r.is_ok() && old(self).handles@[old(self).next as int].alive() ==> {
             &&& final(self).handles == old(self).handles
             &&& final(self).next == (old(self).next + 1) % (old(self).handles@.len() as int)   // [C04]
-            &&& (final(self).avail@ == old(self).avail@
-                 || final(self).avail@ == old(self).avail@.remove(old(self).handles@[old(self).next as int].spec_idx()))   // [C02,C04]
+            // the worker's bit is cleared exactly when recording the dispatch reported "limit reached"   [C02,C04]
+            &&& final(self).avail@ == (if old(self).handles@[old(self).next as int].inc_result() { old(self).avail@ }
+                    else { old(self).avail@.remove(old(self).handles@[old(self).next as int].spec_idx()) })
             &&& final(self).srv == old(self).srv
         },
         // the connection is given up only when the last handle has just been removed   [C01]
